@@ -17,8 +17,9 @@ Theorem C06_13_no_double_commit :
 Proof. exact marks_nodup. Qed.
 Print Assumptions C06_13_no_double_commit.
 
-(* ... and none is handed to Read twice.  With C05_13_every_delivery_sealed and C09_13_send_unique (the peer never
-   seals two records under one number) no payload is delivered more often than it was written. *)
+(* ... and none is accepted for Read twice (handed over at once, or parked until the local handshake completes).  With
+   C05_13_every_delivery_sealed and C09_13_send_unique (the peer never seals two records under one number) no payload is
+   delivered more often than it was written. *)
 Theorem C06_13_no_double_delivery :
   forall (snmask : N -> bytes -> N) (aopen : N -> N -> bytes -> bytes -> option bytes)
     (hs_room : bytes -> bool) (W : nat) (cid : bytes) (neg rrc : bool) 
@@ -29,6 +30,30 @@ Theorem C06_13_no_double_delivery :
        (deliveries (snd (run_ops snmask aopen hs_room W (rinit cid neg rrc) ops)))).
 Proof. exact deliveries_nodup. Qed.
 Print Assumptions C06_13_no_double_delivery.
+
+(* Early application data (repaired defect F84): payloads that arrive before the local handshake has completed are parked
+   (at most 100) instead of blocking the handshake, and Read returns them first.  What Read returns is, in order, a
+   subsequence of what was parked before plus what was accepted. *)
+Theorem C06_13_reads_are_accepted :
+  forall (snmask : N -> bytes -> N) (aopen : N -> N -> bytes -> bytes -> option bytes)
+    (hs_room : bytes -> bool) (W : nat) (ops : list op) (s : rstate),
+  EI s ->
+  sublist (reads (snd (run_ops snmask aopen hs_room W s ops)))
+    (r_early s ++ deliveries (snd (run_ops snmask aopen hs_room W s ops))).
+Proof. exact reads_are_accepted. Qed.
+Print Assumptions C06_13_reads_are_accepted.
+
+(* C06 at the level of Read, over every history incl. application records that overtake the peer's Finished: no
+   (epoch, record number) is returned by Read twice. *)
+Theorem C06_13_no_double_read :
+  forall (snmask : N -> bytes -> N) (aopen : N -> N -> bytes -> bytes -> option bytes)
+    (hs_room : bytes -> bool) (W : nat) (cid : bytes) (neg rrc : bool) 
+    (ops : list op),
+  N.of_nat W <= maxseq48 ->
+  NoDup
+    (RecvSound.recnums (reads (snd (run_ops snmask aopen hs_room W (rinit cid neg rrc) ops)))).
+Proof. exact reads_nodup. Qed.
+Print Assumptions C06_13_no_double_read.
 
 (* The same from any state whose detectors reflect its own past. *)
 Theorem C06_13_no_double_commit_from :
@@ -96,6 +121,7 @@ Theorem C06_13_authentic_delivered_iff_window :
   has_prot s = true ->
   e <> 0 ->
   q <= maxseq48 ->
+  room s = true ->
   deliveries (snd (recv_cipher snmask aopen hs_room W lease s b)) =
   (if
     check (fst (get_win W e (ensure_wins W maxseq64 e (r_wins s))))
@@ -187,6 +213,7 @@ Theorem C06_13_genuine_delivered_iff_window :
   e <= r_epoch s ->
   e <> 0 ->
   has_prot s = true ->
+  room s = true ->
   get_high e (r_high s) < 9223372036854775808 ->
   get_high e (r_high s) + 1 < em_seq x + 32768 ->
   em_seq x <= get_high e (r_high s) + 1 + 32768 ->
@@ -211,12 +238,33 @@ Theorem C06_13_tolerance_large_window_refuted :
 Proof. exact tolerance13_large_window_refuted. Qed.
 Print Assumptions C06_13_tolerance_large_window_refuted.
 
+(* KNOWN FINDING K-C06-2 in the model: a record whose number lies 2^15 or more behind the expected one of its epoch is
+   rebuilt to a different number (16-bit wire number), so - its ciphertext opening at its own number only - no generation
+   opens it, whatever the configured replay window. *)
+Theorem C06_13_far_behind_not_opened :
+  forall (snmask : N -> bytes -> N) (aopen : N -> N -> bytes -> bytes -> option bytes)
+    (s : rstate) (h : uhdr) (ct : bytes) (e q : N),
+  get_high e (r_high s) < 9223372036854775808 ->
+  u_sbit (apply_mask h (snmask e ct)) = true ->
+  u_seq (apply_mask h (snmask e ct)) = q mod 65536 ->
+  q + 32768 <= get_high e (r_high s) + 1 ->
+  (forall (q' : N) (a : bytes), q' <> q -> aopen e q' a ct = None) ->
+  open_gen snmask aopen s h ct e = None.
+Proof. exact far_behind_not_opened. Qed.
+Print Assumptions C06_13_far_behind_not_opened.
+
+(* ... the concrete numbers of the finding: window 40000, newest 32799, record 0: inside the window, rebuilt as 65536. *)
+Theorem C06_13_k_c06_2_witness :
+  32799 - 0 < 40000 /\ 0 + 32768 <= 32799 + 1 /\ reconstruct (0 mod 65536) true 32799 = 65536.
+Proof. exact k_c06_2_witness. Qed.
+Print Assumptions C06_13_k_c06_2_witness.
+
 (* non-vacuity: reordered and duplicated arrivals across a key update (generations 3 and 4) *)
 Definition ex6_open (e q : N) (a c : bytes) : option bytes :=
   if ((e =? 3) || (e =? 4)) && bytes_eqb c (repeat e 16 ++ [q]) then Some [q; 23] else None.
 Definition ex6_rec (e q : N) : bytes := [44 + e mod 4; 0; q; 0; 17] ++ repeat e 16 ++ [q].
 Example C06_13_example :
-  let s := mk_rstate 3 (Some 3) [2] [] [] [] [] false false false true in
+  let s := mk_rstate 3 (Some 3) [2] [] [] [] [] false false false true [] in
   map (fun d => snd d) (deliveries (snd (run_ops (fun _ _ => 0) ex6_open (fun _ => true) 64 s
     [Arrive (ex6_rec 3 1); Arrive (ex6_rec 3 0); Arrive (ex6_rec 3 1); Arrive (ex6_rec 4 0);
      InstallRead 4; SetRemoteEpoch 4; Drain; Arrive (ex6_rec 4 0); Arrive (ex6_rec 3 2); Arrive (ex6_rec 3 0)])))
